@@ -135,9 +135,9 @@ fn gen_cfg(rng: &mut Rng) -> Option<Cfg> {
         data_by_env: rng.pct(50),
         allow,
         allow_form: rng.below(3) as u8,
-        versions: if rng.pct(85) { Some(*rng.pick(&[1u32, 2, 3, 5])) } else { None },
+        versions: if rng.pct(85) { Some(*rng.pick(&[0u32, 1, 2, 3, 5])) } else { None },
         versions_by_env: rng.pct(50),
-        days: if rng.pct(85) { Some(*rng.pick(&[1i64, 2, 3, 5, 30])) } else { None },
+        days: if rng.pct(85) { Some(*rng.pick(&[0i64, 1, 2, 3, 5, 30])) } else { None },
         days_by_env: rng.pct(50),
         occupied: if occupy { Some(occ_idx) } else { None },
     })
@@ -326,6 +326,7 @@ fn run_cfg(cfg: &Cfg, bin: &std::path::Path, rng: &mut Rng, cov: &mut Cov) -> Re
     drop(proc);
     let d = eff.snapshot_days;
     let ages: Vec<i64> = vec![d.max(1) - 1, d, d * 3 / 2 + 1];
+    let ages: Vec<i64> = { let mut a = ages; a.dedup(); a };
     for age in ages {
         // fresh snapshot at the latest version so that versions-since stays 0
         {
